@@ -13,15 +13,18 @@ META = dict(
                "pair for all outcomes), C03_serial (A = 1: a message is started only when no callback task exists and every earlier "
                "one has finished; starts are a prefix of the delivery order), C03_no_deadlock / C03_progress_while_backlog (in every "
                "reachable state a prefetcher / runner step is enabled unless all A slots are busy, the runner waits for live tasks "
-               "after the sentinel, or both have returned). Tied to /repo on every run by trace acceptance: real listen() runs with "
+               "after the sentinel, or both have returned), C03_saturable (no slot is ever lost: a saturating continuation exists from every "
+               "reachable state before stop / end of stream). Tied to /repo on every run by trace acceptance: real listen() runs with "
                "exceptions, BaseException, timeouts, NoResultError, malformed / unknown messages, failing backend and raising hooks, "
                "followed by a saturation probe, must be accepted by the model inside Coq with the Boolean form of the invariant in "
                "every visited state; limit, serial order, saturation and progress are also checked directly on the implementation log.",
     level_note="Partial w.r.t. real time: 'keeps making progress' is proved as deadlock-freedom of the untimed LTS; that an enabled "
                "step is eventually taken (fairness of the asyncio loop, thread pool for sync tasks) is trusted, and the timed "
                "progress clause (a ready message starts within 1 s of a free slot) and the saturation probe are oracle-checked "
-               "under virtual time only. C03_saturable (existence of a saturating continuation) is not proved in Coq; the "
-               "saturation probe checks it on the implementation. That every outcome ends the callback task in the same way is "
+               "under virtual time only. C03_saturable (from every reachable state without stop request, end of the broker stream or "
+               "max-tasks budget a continuation exists that ends no running callback, takes only fresh messages and reaches A "
+               "callbacks running at once) is proved for the LTS; that the real loop takes such a continuation is what the "
+               "saturation probe checks on the implementation. That every outcome ends the callback task in the same way is "
                "established by trace acceptance (sampled), the per-message pipeline itself is Pipeline.v (C02/C07/C10). Trusted: "
                "Coq kernel + vm_compute, shims and raw-log grouping (harness/shims.py), virtual-time loop.",
     rule="case = receiver scenario with a fault history (raise / BaseException / timeout label with instant or slow cancellation clean-up / no-result / malformed / unknown / "
